@@ -2,3 +2,4 @@ pub mod eval;
 pub mod isa;
 pub mod layout;
 pub mod expand;
+pub mod cpu;
